@@ -1016,11 +1016,17 @@ func (g grid) size() int {
 	return len(g.masks) * len(g.widths) * len(g.precs) * len(g.idxs) * len(g.verbs)
 }
 
+// flagString spells the flag subset of mask (bits 0..4) in the order "#0+- "; bit 5 asks for the reverse order
+// (flags may be written in any order: a parser that lets a later flag undo an earlier one shows in one of the two)
 func flagString(mask int) string {
 	s := ""
 	for i := 0; i < len(flagChars); i++ {
 		if mask&(1<<i) != 0 {
-			s += string(flagChars[i])
+			if mask&32 != 0 {
+				s = string(flagChars[i]) + s
+			} else {
+				s += string(flagChars[i])
+			}
 		}
 	}
 	return s
@@ -1281,6 +1287,9 @@ func main() {
 	g := grid{widths: widthsAll, precs: precsAll, idxs: idxAll, verbs: docVerbs}
 	for m := 0; m < 32; m++ {
 		g.masks = append(g.masks, m)
+		if m&(m-1) != 0 { // two or more flags: also in reverse order
+			g.masks = append(g.masks, m|32)
+		}
 	}
 	if !thorough {
 		// quick: all 32 flag subsets, widths {none,5,*}, precisions {none,".",".3",".*"}
